@@ -79,6 +79,13 @@ def classes():
         sa: StructArray = StructArray(VT_INNER, 3)
         so: StructArray = StructArray(VT_OTHER, 3)
         ba: ByteArray = ByteArray(6)
+        # same element types and lengths as MDF_VT's ia / ua / fa / da / sa / ba under other names
+        ic: IntArray = IntArray(Int16, 5)
+        uc: IntArray = IntArray(Uint8, 4)
+        fc: FloatArray = FloatArray(Float, 5)
+        dc: FloatArray = FloatArray(Double, 4)
+        sc: StructArray = StructArray(VT_INNER, 3)
+        bc: ByteArray = ByteArray(6)
 
     _CLS.update(INNER=VT_INNER, OTHER=VT_OTHER, VT=MDF_VT, VT2=MDF_VT2)
     return _CLS
@@ -370,6 +377,14 @@ def build_table():
     add("sa", "from", None, ("VT2", "so"), REFUSE, None, "sa = other.so (other struct)")
     add("ba", "from", None, ("VT2", "ba"), ACCEPT, None, "ba = other.ba")
     add("ba", "from", None, ("VT2", "ia"), REFUSE, None, "ba = other.ia")
+    # the source is a field with another name (same element type and length)
+    add("ia", "from", None, ("VT2", "ic"), ACCEPT, None, "ia = other.ic")
+    add("ua", "from", None, ("VT2", "uc"), ACCEPT, None, "ua = other.uc")
+    add("fa", "from", None, ("VT2", "fc"), ACCEPT, None, "fa = other.fc")
+    add("da", "from", None, ("VT2", "dc"), ACCEPT, None, "da = other.dc")
+    add("sa", "from", None, ("VT2", "sc"), ACCEPT, None, "sa = other.sc")
+    add("ba", "from", None, ("VT2", "bc"), ACCEPT, None, "ba = other.bc")
+    add("ia", "from", None, ("VT", "ia"), ACCEPT, None, "ia = another message's ia")
     return T
 
 
@@ -443,8 +458,8 @@ def do_assign(msg, case: Case, in_force: bool, res: RunResult, who: str, accesso
         other = C[case.value[0]]()
         for i in range(len(getattr(other, case.value[1]))):
             try:
-                if case.value[1] in ("sa", "so"):
-                    pass
+                if case.value[1] in ("sa", "so", "sc"):
+                    getattr(other, case.value[1])[i].a = i + 1
                 else:
                     getattr(other, "_" + case.value[1])[i] = i + 1
             except Exception:
